@@ -170,8 +170,11 @@ def impl_run(h):
     kind = h["kind"]
     rm = new_impl(kind, h["L"])
     out = []
+    gf = None  # ONE generated g function serves every consecutive g query (as one enforce call does); any other op ends it
     for op in h["ops"]:
         k = op[0]
+        if k != "g":
+            gf = None
         try:
             if k == "add":
                 rm.add_link(*op[1:])
@@ -202,8 +205,9 @@ def impl_run(h):
                 rm.set_domain_link_condition_func_params(op[1], op[2], op[3], *op[4])
                 out.append("ok")
             elif k == "g":
-                f = generate_conditional_g_function(rm) if kind in ("cond", "conddomain") else generate_g_function(rm)
-                r = f(*op[1])
+                if gf is None:
+                    gf = generate_conditional_g_function(rm) if kind in ("cond", "conddomain") else generate_g_function(rm)
+                r = gf(*op[1])
                 out.append("T" if r is True else "F" if r is False else f"!nonbool:{r!r}")
             elif k == "build":
                 a = Assertion()
